@@ -1,11 +1,16 @@
 package main
 
 import (
+	"bytes"
 	"errors"
 	"fmt"
 	"math/rand"
+	"os"
+	"os/exec"
 	"reflect"
+	"runtime/debug"
 	"strings"
+	"time"
 
 	am "github.com/hashicorp/go-argmapper"
 )
@@ -457,6 +462,9 @@ func init() {
 
 func runC06(c *CaseCtx) (res CaseResult) {
 	r := caseRand(c.Seed, "C06", c.Idx)
+	if c.Idx == 6 {
+		runTraceSelfRefProbe(&res)
+	}
 	if c.Idx%45 == 7 {
 		// concurrent calls that need two shared run-once converters in
 		// opposite nesting order: every call returns (see C11)
@@ -527,8 +535,11 @@ func runC06(c *CaseCtx) (res CaseResult) {
 		}
 		// one case in ten: an unrelated supplied value that contains itself
 		// (a legal Go value; formatting it with %v never terminates)
+		// (cases that log at trace level ask the library to render every value
+		// as text: that combination is decided by runTraceSelfRefProbe, in a
+		// process of its own)
 		var cyc []am.Arg
-		if c.Idx%10 == 3 {
+		if c.Idx%10 == 3 && !caseTrace {
 			l := xCyc{nil, 7}
 			l[0] = l
 			cyc = []am.Arg{am.Typed(l)}
@@ -598,7 +609,15 @@ func runC06(c *CaseCtx) (res CaseResult) {
 func runC06Malformed(c *CaseCtx, r *rand.Rand) (res CaseResult) {
 	s, _ := genExact(r, r.Intn(2) == 0)
 	kind := r.Intn(15)
-	kinds := []string{"nil-option", "named-nil", "typed-nil", "converterfunc-nil", "converter-42", "converter-nil", "gen-error", "gen-nil-nil", "newfunc-nonfunc", "gen-nil-func", "logger-nil", "converter-typed-nil-func", "filter-combinator-nil", "filter-type-nil", "converter-typed-nil-funcptr"}
+	kinds := []string{"nil-option", "named-nil", "typed-nil", "converterfunc-nil", "converter-42", "converter-nil", "gen-error", "gen-nil-nil", "newfunc-nonfunc", "gen-nil-func", "logger-nil", "converter-typed-nil-func", "filter-combinator-nil", "filter-type-nil", "converter-typed-nil-funcptr", "convert-nil-type", "recursive-pointer-type"}
+	// two kinds are chosen by the case index (the PRNG stream of the other
+	// kinds stays what it was)
+	switch c.Idx % 17 {
+	case 3:
+		kind = 15
+	case 9:
+		kind = 16
+	}
 	res.Key = kinds[kind] + " " + s.Key()
 	res.NonTrivial = true
 	res.obs("malformed_cases", 1)
@@ -674,6 +693,23 @@ func runC06Malformed(c *CaseCtx, r *rand.Rand) (res CaseResult) {
 	det := func(api string, o *Outcome) interface{} {
 		return map[string]interface{}{"scenario": s.String(), "malformed": kinds[kind], "api": api, "class": o.Class, "panic": o.Panic, "err": firstLine(errStr(o.Err))}
 	}
+	if kind == 15 {
+		// Convert to a nil target type: an error, not a panic
+		o := DoConvert(in.W, nil, in.AllArgs(0, r))
+		res.Evals++
+		res.obs("api.convert", 1)
+		if o.Class == ClsPanic {
+			res.violate("C06", "panic/malformed-"+kinds[kind], "Convert(nil, ...) panicked: "+o.Panic, det("convert", &o))
+		} else if o.Err == nil {
+			res.violate("C06", "malformed-accepted/"+kinds[kind], "Convert(nil, ...) returned no error", det("convert", &o))
+		}
+		res.Sample = map[string]interface{}{"malformed": kinds[kind]}
+		return res
+	}
+	if kind == 16 {
+		runC06RecursivePointer(r, &res)
+		return res
+	}
 	mk := func(call int) []am.Arg {
 		args := in.AllArgs(call, r)
 		pos := r.Intn(len(args) + 1)
@@ -732,6 +768,73 @@ func runC06Malformed(c *CaseCtx, r *rand.Rand) (res CaseResult) {
 	return res
 }
 
+// xSelfPtr is a pointer type that leads back to itself; xPtrA and xPtrB do so
+// in two steps. They are legal Go types that never reach a struct.
+type xSelfPtr *xSelfPtr
+type xPtrA *xPtrB
+type xPtrB *xPtrA
+
+// runC06RecursivePointer: functions over pointer types that lead back to
+// themselves are analysed, called, converted to and redefined like any other
+// (the step hook bounds the analysis of the signature).
+func runC06RecursivePointer(r *rand.Rand, res *CaseResult) {
+	var fn, val interface{}
+	var tgt reflect.Type
+	ran := 0
+	switch r.Intn(3) {
+	case 0:
+		var p xSelfPtr
+		p = &p
+		fn, val, tgt = func(a xSelfPtr, b T0) T1 { ran++; return T1{ID: b.ID} }, p, reflect.TypeOf(p)
+	case 1:
+		var a xPtrA
+		var b xPtrB = &a
+		a = &b
+		fn, val, tgt = func(x xPtrA, b T0) T1 { ran++; return T1{ID: b.ID} }, a, reflect.TypeOf(a)
+	default:
+		var b xPtrB
+		fn, val, tgt = func(b T0) (xPtrB, T1) { ran++; return nil, T1{ID: b.ID} }, b, reflect.TypeOf(b)
+	}
+	res.Sample = map[string]interface{}{"malformed": "recursive-pointer-type", "type": tgt.String()}
+	defer func() {
+		if p := recover(); p != nil {
+			key := "panic/recursive-pointer-type"
+			if be, ok := p.(boundExceeded); ok {
+				key = "bound/" + crashKey(be.msg)
+			}
+			res.violate("C06", key, fmt.Sprintf("a function over %s: %v", tgt, p), nil)
+		}
+	}()
+	f, err := am.NewFunc(fn)
+	res.Evals++
+	if err != nil || f == nil {
+		res.violate("C06", "newfunc-rejected", fmt.Sprintf("NewFunc rejected a function over %s: %v", tgt, err), nil)
+		return
+	}
+	args := []am.Arg{am.Typed(T0{ID: 3})}
+	if reflect.TypeOf(val) == tgt && reflect.TypeOf(fn).NumIn() == 2 {
+		args = append(args, am.Typed(val))
+	}
+	o := DoCall(nil, f, args)
+	res.Evals++
+	res.obs("api.call", 1)
+	if o.Class != ClsOK || ran != 1 {
+		res.violate("C06", "recursive-pointer-type/call", fmt.Sprintf("exactly satisfied call of a function over %s: %s %s %v (executions %d)", tgt, o.Class, o.Panic, o.Err, ran), nil)
+	}
+	o2 := DoConvert(nil, tgt, []am.Arg{am.Typed(val)})
+	res.Evals++
+	res.obs("api.convert", 1)
+	if o2.Class == ClsPanic {
+		res.violate("C06", "panic/recursive-pointer-type", "Convert to "+tgt.String()+" panicked: "+o2.Panic, nil)
+	}
+	o3 := DoRedefine(nil, f, args[:1])
+	res.Evals++
+	res.obs("api.redefine", 1)
+	if o3.Class == ClsPanic {
+		res.violate("C06", "panic/recursive-pointer-type", "Redefine of a function over "+tgt.String()+" panicked: "+o3.Panic, nil)
+	}
+}
+
 // xCyc is a slice type whose values can contain themselves; xCycNode a
 // struct that points to itself through an interface field.
 type xCyc []interface{}
@@ -739,6 +842,90 @@ type xCyc []interface{}
 type xCycNode struct {
 	Next interface{}
 	Tag  string
+}
+
+// probeMain runs one named probe in this process: an operation whose failure
+// mode is the death of the process, so that the monitor can watch it from
+// outside. It prints PROBE-OK when every operation returned.
+func probeMain(name string) int {
+	switch name {
+	case "trace-selfref":
+		debug.SetMaxStack(64 << 20)
+		// Call, Convert and Redefine with a trace-level logger and a supplied
+		// value that contains itself
+		l := xCyc{nil, 7}
+		l[0] = l
+		f, err := am.NewFunc(func(a T0, b T1) T2 { return T2{ID: a.ID + b.ID} })
+		if err != nil {
+			fmt.Println("PROBE-SETUP-FAILED", err)
+			return 3
+		}
+		args := []am.Arg{am.Logger(traceLogger), am.Typed(T0{ID: 1}), am.Typed(l)}
+		f.Call(append(args, am.Typed(T1{ID: 2}))...)
+		fmt.Println("PROBE-STEP call")
+		am.Convert(types[0], args...)
+		fmt.Println("PROBE-STEP convert")
+		f.Redefine(args...)
+		fmt.Println("PROBE-STEP redefine")
+		fmt.Println("PROBE-OK")
+		return 0
+	}
+	fmt.Println("PROBE-UNKNOWN", name)
+	return 2
+}
+
+// runTraceSelfRefProbe decides, once per run, the combination the in-process
+// workload leaves out: trace-level logging together with a supplied value
+// that contains itself. The operation runs in a child process because its
+// failure is a fatal stack overflow, which no recover() sees.
+func runTraceSelfRefProbe(res *CaseResult) {
+	cmd := exec.Command(os.Args[0], "probe", "trace-selfref")
+	cmd.Env = append(os.Environ(), "GOTRACEBACK=single")
+	var buf bytes.Buffer
+	cmd.Stdout, cmd.Stderr = &buf, &buf
+	done := make(chan error, 1)
+	if err := cmd.Start(); err != nil {
+		res.Inconclusive = "probe-not-started"
+		return
+	}
+	go func() { done <- cmd.Wait() }()
+	select {
+	case err := <-done:
+		if err != nil {
+			fmt.Fprintf(&buf, "\nPROBE-EXIT %v\n", err)
+		}
+	case <-time.After(120 * time.Second):
+		// watchdog only: its firing is inconclusive, not a verdict
+		cmd.Process.Kill()
+		<-done
+		res.Inconclusive = "probe-watchdog"
+		return
+	}
+	out := buf.String()
+	res.obs("trace_logging_self_containing_value_probes", 1)
+	switch {
+	case strings.Contains(out, "PROBE-OK"):
+		res.obs("trace_logging_self_containing_value_probe_returned", 1)
+	case strings.Contains(out, "stack overflow") || strings.Contains(out, "goroutine stack exceeds"):
+		step := "call"
+		if strings.Contains(out, "PROBE-STEP call") {
+			step = "convert-or-redefine"
+		}
+		res.violate("C06", "trace-logger-renders-self-containing-value",
+			"with Logger(trace level) and a supplied slice that contains itself, the operation ("+step+") exhausts the stack: fatal error: stack overflow",
+			map[string]interface{}{"probe": "vcheck probe trace-selfref", "output_head": head(out, 600)})
+	default:
+		res.violate("C06", "trace-logger-self-containing-value/other",
+			"probe with Logger(trace level) and a self-containing value did not return normally: "+head(out, 300),
+			map[string]interface{}{"probe": "vcheck probe trace-selfref", "output_head": head(out, 600)})
+	}
+}
+
+func head(s string, n int) string {
+	if len(s) > n {
+		return s[:n]
+	}
+	return s
 }
 
 func selfRefNode() *xCycNode {
